@@ -41,12 +41,35 @@ def run(repo, chk):
     chk.rule("R3", "pull_block ends exactly at its declared end; every pull_extension closure checks extension_end; CID length tests are `> CONNECTION_ID_MAX_SIZE`; pulled lengths feed pull_bytes / end computations")
     chk.rule("R4", "C: byte order and count of push_uintN vs pull_uintN; varint thresholds / prefixes / lengths of push_uint_var, pull_uint_var and size_uint_var against RFC 9000 section 16")
     chk.decline("value-level round-trip equality and byte equality with a second encoder (needs execution); R1-R4 are structural necessary conditions of both")
-    chk.decline("integers outside a codec's domain (push_uint8(256), push_uint_var(2**64 + 5)): CPython's B/H/I/K units truncate silently - noted, outside the property's quantifier")
+    chk.decline("integers outside a codec's domain passed directly to the primitives (push_uint8(256), push_uint_var(2**64 + 5)): CPython's B/H/I/K units truncate silently - outside the property's quantifier; R5 decides only that TLS length prefixes do not go through those units")
     ref = json.load(open(REF))
     r1(repo, chk, ref)
     r2(repo, chk)
     r3(repo, chk, ref)
     r4(repo, chk, ref)
+    r5(repo, chk)
+
+
+def r5(repo, chk):
+    """length prefixes of TLS structures cannot be truncated silently"""
+    chk.rule("R5", "TLS length prefixes are written by push_block through int.to_bytes(capacity) (which raises when the body does not fit its prefix); no tls.py writer passes a computed length to the truncating push_uint8/16/32 units of the C buffer")
+    pb = Fn(repo, "tls:push_block")
+    writes = [c for c in pb.calls(suffix="push_bytes")] + [c for c in pb.calls() if call_name(c).split(".")[-1] in ("push_uint8", "push_uint16", "push_uint32", "push_uint64", "push_uint_var")]
+    ok = len(writes) == 1 and call_name(writes[0]).endswith("push_bytes") and writes[0].args and isinstance(writes[0].args[0], ast.Call) and call_name(writes[0].args[0]).endswith(".to_bytes") and writes[0].args[0].args and norm(writes[0].args[0].args[0]) == "capacity"
+    chk.ob("R5", "push_block writes the length with length.to_bytes(capacity, ...) only", ok, f"prefix writers: {[norm(w)[:50] for w in writes]}: the C units B/H/I reduce an over-long length mod 2^8 / 2^16 / 2^32 instead of raising, so an over-long field is emitted with a lying prefix", pb.loc(pb.node))
+    m = repo.mod("tls")
+    n = 0
+    for q in sorted(m.functions):
+        fn = Fn(repo, "tls:" + q)
+        for c in fn.calls():
+            if call_name(c).split(".")[-1] in ("push_uint8", "push_uint16", "push_uint32") and c.args:
+                n += 1
+                a = c.args[0]
+                txt = fn.expand(a, 2)
+                bad = "len(" in txt or ".tell()" in txt or any(isinstance(x, ast.Name) and x.id in ("length", "size") for x in ast.walk(a))
+                chk.ob("R5", f"{q}: `{norm(c)[:60]}` does not push a computed length through a truncating unit", not bad, f"argument `{txt[:80]}`", fn.loc(c)) if bad or True else None
+    if n < 15:
+        raise AnalysisError(f"only {n} fixed-width pushes found in tls.py")
 
 
 def _enum(repo, modname, cls):
@@ -310,8 +333,35 @@ def _loads(expr):
     return out if rec(expr) else None
 
 
+def _shift_types(fn):
+    """(shift amount, C type of the shift expression) for every `x << k` with constant k in the function"""
+    out = []
+    for n in cq.preorder(cq.body(fn)):
+        if n.get("kind") == "BinaryOperator" and n.get("opcode") == "<<":
+            k = cq.ceval(cq.kids(n)[1])
+            t = n.get("type", {})
+            out.append((k, t.get("desugaredQualType") or t.get("qualType") or "?", n))
+    return out
+
+
+_WIDTH = {"int": (31, True), "unsigned int": (32, False), "long": (63, True), "unsigned long": (64, False), "long long": (63, True), "unsigned long long": (64, False)}
+
+
 def r4(repo, chk, ref):
     cu = cq.CUnit(os.path.join(repo.src, "_buffer.c"))
+    # every byte shifted into place is first widened to an unsigned type that holds it: `b << 24` on a promoted int
+    # overflows into the sign bit for b >= 0x80 and is sign-extended when widened to the 64-bit result
+    for fname in ("Buffer_pull_uint16", "Buffer_pull_uint32", "Buffer_pull_uint64", "Buffer_pull_uint_var"):
+        fnc = cu.func(fname)
+        sh = _shift_types(fnc)
+        if fname != "Buffer_pull_uint16" and not sh:
+            raise AnalysisError(f"{fname}: no shift expressions found")
+        for k, t, node in sh:
+            if k is None:
+                continue
+            bits, signed = _WIDTH.get(t, (0, True))
+            ok = k + 8 <= bits
+            chk.ob("R4", f"{fname}: byte shifted left by {k} is computed in a type that holds bit {k + 7} without touching a sign bit", ok, f"`{ctext(node)[:60]}` has type {t}: a byte >= 0x80 overflows into the sign bit and is sign-extended in the wider result (e.g. 0x80000000 decodes as 0xffffffff80000000)", cu.loc(node))
     for n in (8, 16, 32, 64):
         nb = n // 8
         ps = cu.func(f"Buffer_push_uint{n}")
